@@ -255,8 +255,12 @@ type solveJob struct {
 var firstLine = regexp.MustCompile(`(?m)^(sat|unsat|unknown|timeout)\s*$`)
 
 func runSolver(solver, file string, timeoutS int) (string, string, float64) {
+	return runSolverCtx(context.Background(), solver, file, timeoutS)
+}
+
+func runSolverCtx(parent context.Context, solver, file string, timeoutS int) (string, string, float64) {
 	var cmd *exec.Cmd
-	ctx, cancel := context.WithTimeout(context.Background(), time.Duration(timeoutS+2)*time.Second)
+	ctx, cancel := context.WithTimeout(parent, time.Duration(timeoutS+2)*time.Second)
 	defer cancel()
 	switch solver {
 	case "z3-new":
@@ -319,39 +323,75 @@ func (e *Engine) Solve(jobs []solveJob, cfg SolverCfg) {
 				}
 				var total float64
 				var results []string
-				for _, s := range cfg.Solvers {
-					r, out, dt := runSolver(s, file, cfg.TimeoutS)
-					total += dt
-					results = append(results, s+":"+r)
-					if r == "sat" && s == "z3" && want == "unsat" && strings.Contains(text, "(forall ") {
+				hasQ := strings.Contains(text, "(forall ")
+				trust := func(sv, r string) string {
+					if r == "sat" && sv == "z3" && want == "unsat" && hasQ {
 						// z3 4.8.12 has answered sat on quantified VCs that are unsat (seen once: an unused
 						// axiom flipped unsat to "sat" after z3 5.1 timed out); its sat is not trusted there
-						r = "unknown"
+						return "unknown"
 					}
-					if r == "sat" || r == "unsat" {
-						o.Result, o.Solver, o.Output = r, s, out
-						if r == want && cfg.Confirm && want == "unsat" {
-							// second opinion
-							for _, s2 := range cfg.Solvers {
-								if s2 == s {
-									continue
-								}
-								r2, _, dt2 := runSolver(s2, file, cfg.TimeoutS)
-								total += dt2
-								if r2 == "unsat" {
-									o.Solver = s + "+" + s2
-									break
-								}
-								if r2 == "sat" {
-									o.Result = "disagree"
-									o.Output += "\nsolver disagreement: " + s2 + " says sat"
-									break
-								}
-							}
+					return r
+				}
+				// quick attempt with the first solver, then all solvers concurrently (first definite answer wins)
+				fullT := cfg.TimeoutS
+				if want == "sat" && fullT > 5 {
+					fullT = 5 // vacuity probes are guards, not claims: an inconclusive probe is tolerated
+				}
+				quickT := 2
+				if cfg.TimeoutS < quickT {
+					quickT = cfg.TimeoutS
+				}
+				first := cfg.Solvers[0]
+				r, out, dt := runSolver(first, file, quickT)
+				total += dt
+				r = trust(first, r)
+				results = append(results, first+":"+r)
+				o.Result, o.Solver, o.Output = r, first, out
+				if r != "sat" && r != "unsat" {
+					type ans struct {
+						s, r, out string
+						dt        float64
+					}
+					ctx, cancel := context.WithCancel(context.Background())
+					ch := make(chan ans, len(cfg.Solvers))
+					for _, sv := range cfg.Solvers {
+						go func(sv string) {
+							r, out, dt := runSolverCtx(ctx, sv, file, fullT)
+							ch <- ans{sv, trust(sv, r), out, dt}
+						}(sv)
+					}
+					for range cfg.Solvers {
+						a := <-ch
+						results = append(results, a.s+":"+a.r)
+						if a.dt > total {
+							total = a.dt
 						}
-						break
+						if a.r == "sat" || a.r == "unsat" {
+							o.Result, o.Solver, o.Output = a.r, a.s, a.out
+							break
+						}
+						o.Result, o.Solver, o.Output = a.r, a.s, a.out
 					}
-					o.Result, o.Solver, o.Output = r, s, out
+					cancel()
+				}
+				if o.Result == want && cfg.Confirm && want == "unsat" {
+					// second opinion
+					for _, s2 := range cfg.Solvers {
+						if s2 == o.Solver {
+							continue
+						}
+						r2, _, dt2 := runSolver(s2, file, cfg.TimeoutS)
+						total += dt2
+						if r2 == "unsat" {
+							o.Solver = o.Solver + "+" + s2
+							break
+						}
+						if trust(s2, r2) == "sat" {
+							o.Result = "disagree"
+							o.Output += "\nsolver disagreement: " + s2 + " says sat"
+							break
+						}
+					}
 				}
 				if o.Result != "sat" && o.Result != "unsat" && o.Result != "disagree" {
 					o.Output = strings.Join(results, " ") + "\n" + o.Output
